@@ -55,7 +55,7 @@ class UpgradedAnnotation(metaclass=abc.ABCMeta):
         if raw_annotation is UpgradedParameter.empty:
             return EmptyAnnotation
 
-        if not function:
+        if function is None:
             warnings.warn(
                 "No function provided when upgrading annotation",
                 DeprecationWarning,
